@@ -276,25 +276,12 @@ Fixpoint ca_get (t : list (N * cmdargs)) (c : N) : option cmdargs :=
   | (c', a) :: r => if N.eqb c' c then Some a else ca_get r c
   end.
 
-(* mergeCmdArgs: the environment of a joined action is the union of the environments of its parts
-   (the later part wins; a name never maps to two different position lists within one rule) *)
-Definition merge_ca (a b : cmdargs) : cmdargs :=
-  mkCA (merge_names (ca_names a) (ca_names b)) (Nat.max (ca_maxpos a) (ca_maxpos b)).
-
-Fixpoint site_args (cas : list (N * cmdargs)) (cs : list N) (acc : option cmdargs) : option cmdargs :=
-  match cs with
-  | [] => acc
-  | c :: r =>
-      match ca_get cas c, acc with
-      | Some b, Some a => site_args cas r (Some (merge_ca a b))
-      | Some b, None => site_args cas r (Some b)
-      | None, _ => None
-      end
-  end.
-
+(* joined commands are all resolved against the environment of the LAST one ("It is okay to override the
+   args - the new ones are more permissive"; not true when the last one sits in a parenthesised alternative:
+   known finding joined-action-env -- such grammars are rejected by goParserAction, AErr 2 here) *)
 Definition run_cmds (tab : cmdtab) (cas : list (N * cmdargs)) (cs : list N) (rm : remap)
                     (base st : list entry) (lhs : entry) : list (N * list arg) :=
-  match site_args cas cs None with
+  match ca_get cas (last cs 0%N) with
   | None => map (fun c => (c, [AErr 5])) cs
   | Some ca =>
       map (fun c => (c, map (fun '(r, pr) => eval_ref ca rm (length st) (base ++ st) lhs r pr) (ct_get tab c))) cs
